@@ -3,6 +3,9 @@
 #include "type.h"
 #include "item.h"
 #include "core_parser.h"
+#ifdef ORATIO_VERIF
+#include "core.h"
+#endif
 #include <cassert>
 
 namespace ratio
@@ -31,6 +34,9 @@ namespace ratio
         ctx->exprs.emplace(THIS_KEYWORD, expr(&itm));
         for (size_t i = 0; i < args.size(); ++i)
             ctx->exprs.emplace(args.at(i)->get_name(), exprs.at(i));
+#ifdef ORATIO_VERIF
+        get_core().verif_note(4, &itm, this, ctx);
+#endif
 
         // we initialize the supertypes..
         size_t il_idx = 0;
